@@ -174,6 +174,20 @@ Theorem C07_list_line_old_or_future_partial : forall off now nowdt st name,
 Proof. exact (fun off now nowdt st name => list_line_old_or_future HALF TWO off now nowdt st name half_le_spec). Qed.
 Print Assumptions C07_list_line_old_or_future_partial.
 
+(* the LIST worker loop + the client's per-line parser over an arbitrary directory: each entry
+   exactly once, in order, with its name, type, size and the date to the format's precision —
+   for plain entries outside the one-day window *)
+Theorem C07_list_entries_exact_partial : forall off now now' dir,
+  now <= now' <= now + HOUR -> yr (client_now off now') <= 9999 ->
+  Forall (list_entry_ok off now) dir ->
+  map (parse_list_line_unix HALF TWO (client_now off now')) (list_lines HALF off now dir)
+  = map (fun e => match de_stat e with
+                  | Some st => Ok (de_name e, list_info st (expected_modify off now st))
+                  | None => Err 0
+                  end) dir.
+Proof. exact (fun off now now' dir => list_entries_exact HALF TWO off now now' dir consts_proof). Qed.
+Print Assumptions C07_list_entries_exact_partial.
+
 (* F13b: every mode with set-uid/set-gid/sticky and without the matching execute bit makes the
    client's parser reject the server's own line (ValueError) *)
 Theorem C07_list_mode_ST_refuted : forall nowdt st ds name,
